@@ -53,8 +53,9 @@ func (t *Topology) Update(p *Peer) error {
 func (t *Topology) Delete(p *Peer) error {
 	t.Lock()
 	defer t.Unlock()
-	l := t.m[p.Meta.Role]
-	l.Delete(p)
+	if l, ok := t.m[p.Meta.Role]; ok {
+		l.Delete(p)
+	}
 
 	return nil
 }
